@@ -11,6 +11,11 @@
 (***************************************************************************)
 EXTENDS Integers, Sequences, FiniteSets, TLC
 
+\* used by the self-tests to switch a known-finding carve-out off (cfg: Known... <- Never...)
+Never0 == FALSE
+Never1(x) == FALSE
+Never2(x, y) == FALSE
+
 NoneOpt == <<>>
 Some(x) == <<x>>
 IsSome(o) == o # <<>>
